@@ -199,11 +199,25 @@ def from_pairs(t):
     return json.loads(t)
 
 
+def ref_overlay(base: dict, over: dict) -> dict:
+    """The documented overlay, written independently: every key of the higher layer wins; two mappings are overlaid key by key."""
+    out = dict(base)
+    for k, v in over.items():
+        if isinstance(v, dict) and isinstance(out.get(k), dict):
+            out[k] = ref_overlay(out[k], v)
+        else:
+            out[k] = json.loads(json.dumps(v))
+    return out
+
+
 def rand_dict(rng, depth=0):
     d = {}
     for k in rng.choice(['a', 'b', 'c', 'd', 'e'], size=int(rng.integers(0, 4)), replace=False):
         if depth < 3 and rng.random() < 0.45:
             d[str(k)] = rand_dict(rng, depth + 1)
+        elif rng.random() < 0.25:
+            # falsy / null values are values like any other: an overlay that sets None, False, 0, '' or [] wins (seed C18_4)
+            d[str(k)] = [None, False, 0, '', [], 0.0][int(rng.integers(0, 6))]
         else:
             d[str(k)] = int(rng.integers(0, 9))
     return d
@@ -306,6 +320,36 @@ def main(ctx):
                                         detail=f'load with {sec}.{key}={bv!r} raised ({r}) but left a configuration active '
                                                f'(get -> {g[:30]}, next valid load -> {nxt[:30]})')
         rc.Config.reset()
+        # keyword arguments whose value is None: `weather.weather_data_dir = None` is a documented setting ("use the current
+        # directory") that only a keyword argument can express, so it must win over the file and the defaults; a None for a
+        # required setting is an invalid load and must be refused, leaving nothing active
+        try:
+            cfgfile = tmp / 'none_kw.toml'
+            wdir = tmp / 'wx_dir'
+            wdir.mkdir(exist_ok=True)
+            cfgfile.write_text(f'[weather]\nweather_data_dir = "{wdir}"\n')
+            for label, kwargs in (('kwargs over file', dict(config_file=cfgfile, weather={'weather_data_dir': None})),
+                                  ('kwargs over defaults + sibling', dict(weather={'weather_data_dir': None, 'use_weather': False}))):
+                rc.Config.reset()
+                ctx.case('none_kw:' + label)
+                c = rc.Config.load(data_path_overrides=[REPO / 'tests' / 'data'], **kwargs)
+                if c.weather.weather_data_dir is not None:
+                    ctx.clause_fail('overlay_precedence', {'scenario': label, 'impl': str(c.weather.weather_data_dir), 'expected': None},
+                                    detail='a keyword argument weather.weather_data_dir=None does not override the lower layers')
+            rc.Config.reset()
+            ctx.case('none_kw:required')
+            try:
+                rc.Config.load(data_path_overrides=[REPO / 'tests' / 'data'], performance_model=None)
+                ctx.clause_fail('load_outcome', {'scenario': 'performance_model=None'},
+                                detail='a load with performance_model=None (a required setting) is accepted')
+            except ValueError:
+                g = rc.do({'op': 'get'})
+                if g != 'err:not_set':
+                    ctx.clause_fail('failed_load_leaves_none', {'scenario': 'performance_model=None', 'get': g[:40]},
+                                    detail='a refused load left a configuration active')
+        except Exception as e:  # noqa: BLE001  (the scenario itself could not be run: not a verdict)
+            ctx.notes.append(f'None-kwarg scenario not run: {type(e).__name__}: {e}')
+        rc.Config.reset()
         # deep_update correspondence + precedence on random nested dictionaries
         reqs, cases = [], []
         for _ in range(ctx.scale(quick=300, thorough=8000)):
@@ -316,7 +360,12 @@ def main(ctx):
         for (d, f, k), m in zip(cases, outs):
             impl = deep_update(json.loads(json.dumps(d)), deep_update(json.loads(json.dumps(f)), json.loads(json.dumps(k))))
             ctx.case('ov:' + json.dumps([d, f, k], sort_keys=True), nontrivial=bool(f or k), sample={'d': d, 'f': f, 'k': k} if len(ctx.samples) < 8 else None)
-            if impl != from_pairs(m):
+            want = ref_overlay(json.loads(json.dumps(d)), ref_overlay(json.loads(json.dumps(f)), k))  # the association Config.load uses
+            if impl != want:
+                ctx.clause_fail('overlay_precedence', {'defaults': d, 'file': f, 'kwargs': k, 'impl': impl, 'expected': want},
+                                detail='deep_update(defaults, deep_update(file, kwargs)) is not "defaults overlaid by the file '
+                                       'overlaid by the keyword arguments" (a value set by a higher layer must win, whatever it is)')
+            elif impl != from_pairs(m):
                 ctx.diverge('deep_update: model vs implementation', {'defaults': d, 'file': f, 'kwargs': k, 'impl': impl, 'model': from_pairs(m)})
     finally:
         shutil.rmtree(tmp, ignore_errors=True)
